@@ -11,6 +11,7 @@ type checkFn func(*Ctx) (string, []string)
 var registry = map[string]checkFn{
 	"C22": checkC22,
 	"C28": checkC28,
+	"C32": checkC32,
 }
 
 func main() {
